@@ -569,13 +569,18 @@ def _raise_stmt(st):
     bound = {x.id for x in ast.walk(st.target) if isinstance(x, ast.Name)}
     if c.func.value.id in bound:
         return [st]
+    # `if x not in acc: acc.append(x)`: collected once however often it comes -- a set in all but name
+    dedupe = [t for t in ifs if isinstance(t, ast.Compare) and len(t.ops) == 1 and isinstance(t.ops[0], ast.NotIn) and A.norm(t.left) == A.norm(c.args[0])
+              and isinstance(t.comparators[0], ast.Name) and t.comparators[0].id == c.func.value.id]
+    if dedupe:
+        ifs = [t for t in ifs if t not in dedupe]
     import copy
     tgt = copy.deepcopy(st.target)
     for x in ast.walk(tgt):
         if isinstance(x, (ast.Name, ast.Tuple, ast.List, ast.Starred)):
             x.ctx = ast.Store()
     gen = ast.comprehension(target=tgt, iter=st.iter, ifs=ifs, is_async=0)
-    as_set = c.func.attr == "add"
+    as_set = c.func.attr == "add" or bool(dedupe)
     comp = (ast.SetComp if as_set else ast.ListComp)(elt=c.args[0], generators=[gen])
     call = ast.Call(func=ast.Attribute(value=c.func.value, attr="update" if as_set else "extend", ctx=ast.Load()), args=[comp], keywords=[])
     return [ast.fix_missing_locations(ast.copy_location(ast.Expr(value=call), st))]
@@ -615,5 +620,16 @@ def view(ck, qual_or_fi, how):
         node = copy.deepcopy(fi.node)
         _rewrite_blocks(node, _lower_stmt if how == "branches" else _raise_stmt)
         changed = ast.dump(node) != ast.dump(fi.node)
+        inl = getattr(ck.repo, "inliner", None)
+        if changed and inl is not None and how == "branches":
+            # a new helper called from inside a comprehension could not be written out by the front end; now that the
+            # comprehension is a loop its call is the value of a statement and can be
+            try:
+                from ..inline import _all_names
+                inl.rewrite_block_owner(node, fi, _all_names(node), 0)
+                ast.fix_missing_locations(node)
+            except Exception:  # noqa
+                node = copy.deepcopy(fi.node)
+                _rewrite_blocks(node, _lower_stmt)
         memo[key] = FuncInfo(fi.module, node, fi.qual, cls=fi.cls, parent=fi.parent) if changed else fi
     return FA(ck, memo[key])
